@@ -762,7 +762,7 @@ func (x *reasm) lessSemantics() {
 		if len(ps) == 2 {
 			n := 0
 			for _, p := range ps {
-				ret := p.Return()
+				ret := p.Ret()
 				if ret == nil || len(ret.Results) != 1 {
 					continue
 				}
@@ -788,7 +788,7 @@ func (x *reasm) lessSemantics() {
 	}
 	for i, p := range ps {
 		key := fmt.Sprintf("Less path#%d [%s]", i, strings.Join(p.Lits(), " ∧ "))
-		ret := p.Return()
+		ret := p.Ret()
 		if ret == nil || len(ret.Results) != 1 {
 			r.Fail(key, fn.Pos(), "no single result")
 			continue
@@ -933,9 +933,9 @@ func (x *reasm) lessSemantics() {
 			splits = next
 		}
 		type region struct {
-			name   string
-			rows   []Lin
-			expGT  bool // expected result: a > b (else a < b)
+			name  string
+			rows  []Lin
+			expGT bool // expected result: a > b (else a < b)
 		}
 		regions := []region{
 			{"a-b > M", []Lin{A.sub(B).addK(-(M + 1))}, true},
@@ -1797,7 +1797,7 @@ func propC19(r *Run, w *World) {
 		for i, p := range ps {
 			key := fmt.Sprintf("Maintain path#%d [%s]", i, strings.Join(p.Lits(), " ∧ "))
 			closedLit := "sync/atomic.LoadInt32(&p0.closed) == 1"
-			ret := p.Return()
+			ret := p.Ret()
 			if p.HasLit(closedLit) {
 				ok := len(p.Calls(x.cleanUp)) == 0 && len(p.Calls(x.callback)) == 0 && ret != nil && Term(ret.Results[0]) == "libaudit.errReassemblerClosed"
 				r.Check(ok, key, x.maintain.Pos(), "closed: error, nothing delivered", "Maintain works after Close: "+describePath(p))
@@ -1860,7 +1860,7 @@ func propC19(r *Run, w *World) {
 		ps, _ := Paths(x.newReassembler, PathOpts{})
 		for i, p := range ps {
 			key := fmt.Sprintf("NewReassembler path#%d [%s]", i, strings.Join(p.Lits(), " ∧ "))
-			ret := p.Return()
+			ret := p.Ret()
 			if ret == nil || len(ret.Results) != 2 {
 				r.Fail(key, x.newReassembler.Pos(), "no return")
 				continue
@@ -1888,7 +1888,7 @@ func (x *reasm) closeOnce() {
 	ps, _ := Paths(x.closeFn, PathOpts{})
 	for i, p := range ps {
 		key := fmt.Sprintf("Close path#%d [%s]", i, strings.Join(p.Lits(), " ∧ "))
-		ret := p.Return()
+		ret := p.Ret()
 		if ret == nil {
 			r.Fail(key, x.closeFn.Pos(), "no return")
 			continue
